@@ -75,6 +75,8 @@ class FakeBase:
         self.close_calls = []     # thread names
         self.calls = {}           # op -> count
         self.faults = {}          # (op, index) -> errno | "generic" | "EOF"
+        self.sticky = False       # a send/recv errno fault persists: every later send/recv fails the same way (a dead socket stays dead)
+        self.dead = None
 
     def fileno(self):
         return self.fd
@@ -86,11 +88,15 @@ class FakeBase:
         self.calls[op] = i + 1
         w.calllog.append((w.thread_name(), self.kind, self.fd, op, i))
         w.yield_point("sock." + op, self)
+        if self.dead is not None and op in ("send", "recv"):
+            raise _oserr(self.dead)
         f = self.faults.get((op, i))
         if f is not None:
             w.faults_hit.append((self.fd, op, i, f))
             if f == "EOF":
                 return "EOF"
+            if self.sticky and op in ("send", "recv"):
+                self.dead = f
             raise _oserr(f)
         return None
 
